@@ -1,0 +1,111 @@
+// Verification hooks for shuffler.rs (only with --cfg strand_verif):
+// constructors/accessors for the crate-private proof fields, the two challenge
+// oracles, the commitment generation and the extended prover.
+use super::*;
+
+pub fn proof_from_parts<C: Ctx>(
+    t: Commitments<C>,
+    s1: C::X,
+    s2: C::X,
+    s3: C::X,
+    s4: C::X,
+    s_hats: Vec<C::X>,
+    s_primes: Vec<C::X>,
+    cs: Vec<C::E>,
+    c_hats: Vec<C::E>,
+) -> ShuffleProof<C> {
+    ShuffleProof {
+        t,
+        s: Responses {
+            s1,
+            s2,
+            s3,
+            s4,
+            s_hats: StrandVectorX(s_hats),
+            s_primes: StrandVectorX(s_primes),
+        },
+        cs: StrandVectorE(cs),
+        c_hats: StrandVectorE(c_hats),
+    }
+}
+
+#[allow(clippy::type_complexity)]
+pub fn proof_parts<C: Ctx>(
+    p: &ShuffleProof<C>,
+) -> (
+    &Commitments<C>,
+    [&C::X; 4],
+    &Vec<C::X>,
+    &Vec<C::X>,
+    &Vec<C::E>,
+    &Vec<C::E>,
+) {
+    (
+        &p.t,
+        [&p.s.s1, &p.s.s2, &p.s.s3, &p.s.s4],
+        &p.s.s_hats.0,
+        &p.s.s_primes.0,
+        &p.cs.0,
+        &p.c_hats.0,
+    )
+}
+
+pub fn shuffle_us<C: Ctx>(
+    sh: &Shuffler<C>,
+    es: &[Ciphertext<C>],
+    e_primes: &[Ciphertext<C>],
+    cs: &[C::E],
+    n: usize,
+    label: &[u8],
+) -> Result<Vec<C::X>, StrandError> {
+    sh.shuffle_proof_us(es, e_primes, cs, n, label)
+}
+
+pub fn shuffle_challenge<C: Ctx>(
+    sh: &Shuffler<C>,
+    es: &[Ciphertext<C>],
+    e_primes: &[Ciphertext<C>],
+    cs: &[C::E],
+    c_hats: &[C::E],
+    t: &Commitments<C>,
+    label: &[u8],
+) -> Result<C::X, StrandError> {
+    let y = YChallengeInput {
+        es,
+        e_primes,
+        cs,
+        c_hats,
+        pk: sh.pk,
+    };
+    sh.shuffle_proof_challenge(&y, t, label)
+}
+
+pub fn gen_commitments<C: Ctx>(
+    sh: &Shuffler<C>,
+    perm: &[usize],
+) -> (Vec<C::E>, Vec<C::X>) {
+    sh.gen_commitments(perm, &sh.ctx)
+}
+
+#[allow(clippy::too_many_arguments)]
+pub fn gen_proof_ext<C: Ctx>(
+    sh: &Shuffler<C>,
+    es: &[Ciphertext<C>],
+    e_primes: &[Ciphertext<C>],
+    r_primes: &[C::X],
+    perm: &[usize],
+    commitments_c: &[C::E],
+    commitments_r: &[C::X],
+    label: &[u8],
+) -> Result<(ShuffleProof<C>, Vec<C::X>, C::X), StrandError> {
+    let perm_data = PermutationData {
+        permutation: perm,
+        commitments_c,
+        commitments_r,
+    };
+    sh.gen_proof_ext(es, e_primes, r_primes, &perm_data, label)
+}
+
+pub fn gen_permutation(size: usize) -> Vec<usize> {
+    super::gen_permutation(size)
+}
